@@ -135,7 +135,8 @@ def build(term, dtype, leaves=None, requires_grad=False):
     if cls == "BatchRepeat":
         return O.BatchRepeatLinearOperator(S(0), batch_repeat=torch.Size(ks))
     if cls == "Cat":
-        return O.CatLinearOperator(*Sall(), dim=ks[0])
+        subs = Sall()
+        return O.CatLinearOperator(*subs, dim=ks[0], output_device=subs[0].device)  # as linear_operator.cat() does
     if cls == "Interp":
         base = S(0)
         return O.InterpolatedLinearOperator(base, L(0), F(1), L(2), F(3))
